@@ -12,8 +12,8 @@
    event is exactly at the horizon is covered by neither clause, the code deletes it
    (C14_boundary_segment_is_deleted). *)
 From Coq Require Import Permutation.
-From SigM Require Import Base Retention RetentionMem RetentionConc RetentionTime.
-From SigP Require Import BaseProofs RetentionProofs RetentionMemProofs RetentionConcProofs RetentionTimeProofs.
+From SigM Require Import Base Retention RetentionMem RetentionConc RetentionTime RetentionPaths.
+From SigP Require Import BaseProofs RetentionProofs RetentionMemProofs RetentionConcProofs RetentionTimeProofs RetentionPathsProofs.
 Open Scope N_scope.
 
 (* the selection test, spelled out *)
@@ -532,3 +532,69 @@ Theorem C14_calendar_horizon_refuted_repeated_hour :
     retention_time_ms_calendar hours (mktime now z) = retention_time_ms hours (mktime now z) - 3600000.
 Proof. exact calendar_repeated_hour_refuted. Qed.
 Print Assumptions C14_calendar_horizon_refuted_repeated_hour.
+
+(* ---- which directory the pass removes: from the segment key back to the directory (RetentionPaths.v) ----
+   The pass removes what GetSegBaseDirFromFilename makes of a selected line's segment key, and rewrites segmeta.json
+   only if the helper succeeds for at least one removed key.  Full statement: for EVERY data path, host id, index name,
+   stream id and segment number the helper returns the directory the writer created for the key,
+       seg_base_dir (seg_key data host ix sid sfx) = Some (base_seg_dir data host ix sid sfx).
+   It holds for every index name, stream id and segment number without '/' — names equal to or containing the words of
+   the directory layout (final, ts, tth, suffix, ...) included — under the exact boolean guard [root_ok]: the "/final/"
+   written by the key builder is the first one of the key.  Without the guard it is false for the code (a data path with
+   a directory called final): C14_segment_dir_of_key_unguarded_refuted. *)
+Theorem C14_segment_dir_of_key_guarded : forall data host ix sid sfx,
+  root_ok data host = true ->
+  p_no_slash ix = true -> p_no_slash sid = true -> p_no_slash sfx = true ->
+  seg_base_dir (seg_key data host ix sid sfx) = Some (base_seg_dir data host ix sid sfx).
+Proof. exact seg_base_dir_inverts_key. Qed.
+Print Assumptions C14_segment_dir_of_key_guarded.
+
+(* non-vacuity: the guard says nothing about the index name; "/data/" + "h.1" satisfies it, and the index called
+   final gets the directory the writer created *)
+Example C14_segment_dir_guard_satisfiable : root_ok b_data_long b_host_id = true.
+Proof. exact root_ok_satisfiable. Qed.
+Print Assumptions C14_segment_dir_guard_satisfiable.
+
+Example C14_segment_dir_of_index_named_final :
+  seg_base_dir (seg_key b_data b_host b_final b_sid b_zero) = Some (base_seg_dir b_data b_host b_final b_sid b_zero).
+Proof. exact seg_base_dir_index_named_final. Qed.
+Print Assumptions C14_segment_dir_of_index_named_final.
+
+(* data path "/final/x/": the helper answers with <data><host>/final/ — the directory that holds EVERY segment of the
+   host — for the key of any segment *)
+Theorem C14_segment_dir_of_key_unguarded_refuted : exists data host ix sid sfx,
+  p_no_slash host = true /\ p_no_slash ix = true /\ p_no_slash sid = true /\ p_no_slash sfx = true /\
+  seg_base_dir (seg_key data host ix sid sfx) = Some (data ++ host ++ p_final_sl) /\
+  seg_base_dir (seg_key data host ix sid sfx) <> Some (base_seg_dir data host ix sid sfx).
+Proof. exact seg_base_dir_unguarded_refuted. Qed.
+Print Assumptions C14_segment_dir_of_key_unguarded_refuted.
+
+(* the helper anchored on the LAST "/final/" of the key (NOT the code): wrong under the guard, witness = the index
+   called final (the two occurrences overlap, two parts follow instead of three, the helper fails and the pass leaves
+   the expired segment's files behind) *)
+Theorem C14_segment_dir_anchored_on_last_final_refuted : exists data host ix sid sfx,
+  root_ok data host = true /\ p_no_slash ix = true /\ p_no_slash sid = true /\ p_no_slash sfx = true /\
+  seg_base_dir_last (seg_key data host ix sid sfx) <> Some (base_seg_dir data host ix sid sfx).
+Proof. exact seg_base_dir_last_refuted. Qed.
+Print Assumptions C14_segment_dir_anchored_on_last_final_refuted.
+
+(* ---- after fix e0ecac0: DeleteSegmentData / removeSegmetas derive the directory with GetSegBaseDirFromSegKey
+   ([seg_base_dir_key]: cut behind the last '/', the part before it must end in the same suffix).  Full statement,
+   UNGUARDED: every data path, host id, index name and stream id — no condition on them — and every non-empty segment
+   number without '/' (a numeral).  The searching helper above ([seg_base_dir], first "/final/") is still used by
+   IsFileForRotatedSegment / GetSegKeyFromFilename (outside C14) and stays under its guard. *)
+Theorem C14_segment_dir_of_segkey : forall data host ix sid sfx,
+  p_no_slash sfx = true -> sfx <> [] ->
+  seg_base_dir_key (seg_key data host ix sid sfx) = Some (base_seg_dir data host ix sid sfx).
+Proof. exact seg_base_dir_key_inverts_key. Qed.
+Print Assumptions C14_segment_dir_of_segkey.
+
+(* the helper of the callers before the fix on the same keys: data path "/final/x/" — the new helper answers with the
+   segment's directory, the old one with <data><host>/final/ *)
+Theorem C14_prefix_segment_dir_by_first_final_refuted : exists data host ix sid sfx,
+  p_no_slash host = true /\ p_no_slash ix = true /\ p_no_slash sid = true /\ p_no_slash sfx = true /\ sfx <> [] /\
+  seg_base_dir_key (seg_key data host ix sid sfx) = Some (base_seg_dir data host ix sid sfx) /\
+  seg_base_dir (seg_key data host ix sid sfx) = Some (data ++ host ++ p_final_sl) /\
+  seg_base_dir (seg_key data host ix sid sfx) <> Some (base_seg_dir data host ix sid sfx).
+Proof. exact seg_base_dir_prefix_unguarded_refuted. Qed.
+Print Assumptions C14_prefix_segment_dir_by_first_final_refuted.
